@@ -687,12 +687,12 @@ pub fn run(ctx: &mut Ctx) {
     ctx.run_regressions::<BacktestsPaused>();
     ctx.run_regressions::<BacktestsThreads>();
     ctx.run_regressions::<InMemoryData>();
-    ctx.run::<InMemoryData>(ctx.tier.pick(500, 5_000));
-    ctx.run::<BacktestsPaused>(ctx.tier.pick(300, 8_000));
+    ctx.run::<InMemoryData>(ctx.tier.pick(5_000, 50_000));
+    ctx.run::<BacktestsPaused>(ctx.tier.pick(6_000, 100_000));
     // real threads inside: run the cases of this check one at a time
     let saved = ctx.threads;
     ctx.threads = 1;
-    ctx.run::<BacktestsThreads>(ctx.tier.pick(12, 200));
+    ctx.run::<BacktestsThreads>(ctx.tier.pick(40, 600));
     ctx.threads = saved;
 }
 
